@@ -94,6 +94,58 @@ Definition writes_guarded_excl (tbl : table) (f : fieldid) (l : lockid) : bool :
   forallb (fun n : node => negb (existsb (fun a : access => N.eqb (fst a) f && match snd a with Wr => true | Rd => false end) (snd n))
                            || holds_excl l (fst n)) (all_nodes tbl).
 
+(* ---- alternative paths ----
+   The table has one entry per PATH of a method.  A method that calls another locked method at a point where it
+   holds no lock, and returns right after (store: `catch(std::bad_alloc) { remove(key); return; }`), has a second entry
+   under the same name whose scope tree is the one of the callee; the generated list alt_paths names them as
+   (caller, callee, path).  The check: the critical sections of such a path are exactly those of (the main path of)
+   the callee - on that path the call behaves, as far as locks and shared members go, like a call of the callee. *)
+Definition mode_eqb (a b : mode) : bool := match a, b with Shared, Shared => true | Excl, Excl => true | _, _ => false end.
+Definition rw_eqb (a b : rw) : bool := match a, b with Rd, Rd => true | Wr, Wr => true | _, _ => false end.
+Definition olock_eqb (a b : option lock) : bool :=
+  match a, b with
+  | None, None => true
+  | Some (l1, m1), Some (l2, m2) => N.eqb l1 l2 && mode_eqb m1 m2
+  | _, _ => false
+  end.
+Fixpoint accs_eqb (a b : list access) : bool :=
+  match a, b with
+  | [], [] => true
+  | (f1, r1) :: a', (f2, r2) :: b' => N.eqb f1 f2 && rw_eqb r1 r2 && accs_eqb a' b'
+  | _, _ => false
+  end.
+Fixpoint scope_eqb (a b : scope) {struct a} : bool :=
+  match a, b with
+  | Scope l1 a1 k1, Scope l2 a2 k2 =>
+      olock_eqb l1 l2 && accs_eqb a1 a2 &&
+      (fix go (x y : list scope) {struct x} : bool :=
+         match x, y with
+         | [], [] => true
+         | p :: x', q :: y' => scope_eqb p q && go x' y'
+         | _, _ => false
+         end) k1 k2
+  end.
+Fixpoint scopes_eqb (x y : list scope) : bool :=
+  match x, y with
+  | [], [] => true
+  | p :: x', q :: y' => scope_eqb p q && scopes_eqb x' y'
+  | _, _ => false
+  end.
+Fixpoint lookup_scope (name : string) (tbl : list (string * scope)) : option scope :=
+  match tbl with
+  | [] => None
+  | (n, m) :: tbl' => if String.eqb n name then Some m else lookup_scope name tbl'
+  end.
+Definition alt_path_ok (tbl : list (string * scope)) (a : string * string * scope) : bool :=
+  let '(caller, callee, p) := a in
+  existsb (fun e : string * scope => String.eqb (fst e) caller && scope_eqb (snd e) p) tbl &&
+  match scope_lock p, lookup_scope callee tbl with
+  | None, Some m => scopes_eqb (scope_kids p) (scope_kids m)
+  | _, _ => false
+  end.
+Definition alt_paths_ok (tbl : list (string * scope)) (alts : list (string * string * scope)) : bool :=
+  forallb (alt_path_ok tbl) alts.
+
 (* ---- semantics: threads running methods of the table ---- *)
 
 Record frame := mkF { fheld : list lock; faccs : list access; frest : list scope }.
